@@ -64,6 +64,10 @@ const c07Subnets = `
 
 var c07KnownGens = map[int64]bool{1: true, 957: true}
 
+// c07MinSecret is the shortest shared secret that makes a registration complete (8 bytes: the
+// registrars' RegIDLen/2).
+const c07MinSecret = 8
+
 // ------------------------------------------------------------------------------------------------
 // Case description
 
@@ -209,9 +213,6 @@ var (
 	c07CovertBlocklists = [][]string{{"10.0.0.0/8", "127.0.0.0/8", "::1/128"}, {"192.0.2.0/24"}, {"2001:db8::/32", "203.0.113.0/24"}}
 	c07CovertAllowlists = [][]string{{"192.0.2.0/24"}, {"198.51.100.0/24", "2001:db8::/32"}, {"10.0.0.0/8", "192.0.2.0/24"}}
 
-	c07PhantomBlocklists = [][]string{{"192.122.190.0/25"}, {"192.122.190.128/25", "2001:48a8:687f:1:8000::/65"},
-		{"2001:48a8:687f:1::/65"}, {"141.219.0.0/16", "35.8.0.0/16", "2001:48a8:687f:2::/64"}, {"203.0.113.0/24", "2001:db8:ffff::/48"}}
-
 	c07OvrV4 = []uint32{0xC07ABE05, 0xC07ABEC8, 0x8DDB0304, 0x2308090A, 0xCB00714D} // 192.122.190.5, .200, 141.219.3.4, 35.8.9.10, 203.0.113.77
 	c07OvrV6 = []string{"2001:48a8:687f:1::5", "2001:48a8:687f:1:8000::9", "2001:48a8:687f:2::7", "2001:db8:ffff::1"}
 
@@ -243,6 +244,45 @@ func c07GenParams(rt *rapid.T, label string, transport int, p int) c07Params {
 	return out
 }
 
+// chains of nested networks over the phantom subnets: same base address with different prefix
+// lengths, and sub-ranges; a blocklist is a LIST and its verdict may not depend on the order or on
+// overlaps between its entries.
+var c07BlockChains = [][]string{
+	{"192.122.190.0/24", "192.122.190.0/25", "192.122.190.0/26", "192.122.190.0/28", "192.122.190.0/30"},
+	{"192.122.0.0/16", "192.122.190.0/24", "192.122.190.128/25", "192.122.190.192/26"},
+	{"141.219.0.0/16", "141.219.0.0/20", "141.219.0.0/28", "141.219.128.0/17"},
+	{"35.8.0.0/16", "35.8.0.0/24", "35.0.0.0/8"},
+	{"2001:48a8:687f:1::/64", "2001:48a8:687f:1::/65", "2001:48a8:687f:1::/96", "2001:48a8:687f:1::/126"},
+	{"2001:48a8:687f::/48", "2001:48a8:687f:1::/64", "2001:48a8:687f:1:8000::/65", "2001:48a8:687f:1:c000::/66"},
+	{"2001:48a8:687f:2::/64", "2001:48a8:687f:2::/80", "2001:48a8:687f:2::/112"},
+}
+
+// c07GenPhantomBlocklist draws 1-4 entries: usually 2-3 members of one chain in a drawn order (so
+// narrower-before-wider and wider-before-narrower both occur), optionally followed or preceded by
+// entries of other chains / unrelated networks.
+func c07GenPhantomBlocklist(rt *rapid.T) []string {
+	var out []string
+	if rapid.IntRange(0, 3).Draw(rt, "pbl.chain?") != 0 {
+		chain := rapid.SampledFrom(c07BlockChains).Draw(rt, "pbl.chain")
+		perm := rapid.Permutation(chain).Draw(rt, "pbl.order")
+		out = append(out, perm[:rapid.IntRange(1, 3).Draw(rt, "pbl.n")]...)
+	}
+	var pool []string
+	for _, ch := range c07BlockChains {
+		pool = append(pool, ch...)
+	}
+	pool = append(pool, "203.0.113.0/24", "2001:db8:ffff::/48")
+	for len(out) < 4 && (len(out) == 0 || rapid.IntRange(0, 2).Draw(rt, "pbl.more?") == 0) {
+		e := rapid.SampledFrom(pool).Draw(rt, "pbl.extra")
+		if rapid.Bool().Draw(rt, "pbl.front") {
+			out = append([]string{e}, out...)
+		} else {
+			out = append(out, e)
+		}
+	}
+	return out
+}
+
 func c07Gen(rt *rapid.T, mode c07Mode) c07Case {
 	if mode == c07Wild && rapid.IntRange(0, 9).Draw(rt, "tidy") < 6 {
 		mode = c07Tidy
@@ -252,15 +292,26 @@ func c07Gen(rt *rapid.T, mode c07Mode) c07Case {
 	m := &c.Msg
 
 	// --- wrapper
-	switch sl := c07Pick(rt, "secret", p, []string{"32"}, []string{"absent", "empty", "1", "8", "16", "31", "33", "64"}); sl {
+	// shared secret: mostly the 32 bytes every real registrar sends, otherwise absent or any length
+	// in 0..40 with weight on the boundary regions 0..9 (the completeness threshold is 8 bytes)
+	// and 31..33
+	switch c07Pick(rt, "secret", p, []string{"32"}, []string{"absent", "len", "len", "len"}) {
 	case "absent":
-	case "empty":
-		m.HasSecret, m.Secret = true, vh.Hex{}
+	case "32":
+		m.HasSecret, m.Secret = true, vh.Hex(vSecret(rapid.IntRange(0, 1<<20).Draw(rt, "secretN")))
 	default:
-		n, _ := strconv.Atoi(sl)
-		s := vSecret(rapid.IntRange(0, 1<<20).Draw(rt, "secretN"))
-		s = append(s, s...)
-		m.HasSecret, m.Secret = true, vh.Hex(s[:n])
+		var n int
+		switch rapid.SampledFrom([]string{"low", "low", "low", "high", "any"}).Draw(rt, "secretRegion") {
+		case "low":
+			n = rapid.SampledFrom([]int{7, 8, 4, 5, 6, 0, 1, 2, 3, 9}).Draw(rt, "secretLen")
+		case "high":
+			n = rapid.SampledFrom([]int{31, 33, 32}).Draw(rt, "secretLen")
+		default:
+			n = rapid.IntRange(0, 40).Draw(rt, "secretLen")
+		}
+		sec := vSecret(rapid.IntRange(0, 1<<20).Draw(rt, "secretN"))
+		sec = append(sec, sec...)
+		m.HasSecret, m.Secret = true, vh.Hex(append([]byte{}, sec[:n]...))
 	}
 	m.HasPayload = c07Pick(rt, "payload", p+4, []bool{true}, []bool{false})
 	m.Source = c07Pick(rt, "source", p, []int{2, 1, 1, 3, 4, 5, 6}, []int{-1, 0, 99})
@@ -381,7 +432,7 @@ func c07Gen(rt *rapid.T, mode c07Mode) c07Case {
 		}
 	}
 	if rapid.IntRange(0, 99).Draw(rt, "pbl?") >= p-10 {
-		cf.PhantomBlocklist = rapid.SampledFrom(c07PhantomBlocklists).Draw(rt, "pbl")
+		cf.PhantomBlocklist = c07GenPhantomBlocklist(rt)
 	}
 	if rapid.IntRange(0, 99).Draw(rt, "cbl?") >= p-10 {
 		cf.CovertBlocklist = rapid.SampledFrom(c07CovertBlocklists).Draw(rt, "cbl")
@@ -819,9 +870,6 @@ func c07Model(e *c07Env, c c07Case) (c07Expect, error) {
 		}
 	}
 	// domain classification
-	if m.HasSecret && len(m.Secret) != 0 && len(m.Secret) != 32 {
-		quirk("secret-length")
-	}
 	if m.Source < 0 || m.Source > 6 {
 		quirk("source-undefined")
 	}
@@ -851,7 +899,12 @@ func c07Model(e *c07Env, c c07Case) (c07Expect, error) {
 	for i, slot := range []string{"v4", "v6"} {
 		f := c07Fam{Slot: slot, PortOvr: -1}
 		v6 := slot == "v6"
-		complete := m.HasPayload && m.HasSecret && len(m.Secret) > 0
+		// complete: the message has a payload and a shared secret. What counts as a shared secret
+		// is what the registrars (regprocessor.ErrSharedSecret: "undefined or insufficient length")
+		// and the station's own ValidateRegistration enforce: at least c07MinSecret bytes. Key
+		// derivation takes any length, so every longer secret is complete (the unchanged station
+		// admits 8..40 bytes alike).
+		complete := m.HasPayload && m.HasSecret && len(m.Secret) >= c07MinSecret
 		genKnown := m.HasPayload && c07KnownGens[m.Gen]
 		// the phantom
 		if rr := m.RR; rr != nil {
